@@ -373,7 +373,9 @@ class PeeweeStorage(AbstractStorage):
                 if e.timestamp < starttime:
                     e_end = e.timestamp + e.duration
                     e.timestamp = starttime
-                    e.duration = e_end - e.timestamp
+                    # The range query works at millisecond resolution and may return an event that
+                    # ended just before starttime, never hand out a negative duration
+                    e.duration = max(timedelta(0), e_end - e.timestamp)
             if endtime:
                 if e.timestamp + e.duration > endtime:
                     e.duration = endtime - e.timestamp
